@@ -405,3 +405,26 @@ Print Assumptions C01_fp3_rounding_any_axis.
 Example C01_rounding_constants :
   map CrowQ (1 :: 2 :: 3 :: 4 :: nil) = ((1001 # 1000) :: (32 # 10) :: (82 # 10) :: (126 # 10) :: nil)%Q.
 Proof. reflexivity. Qed.
+
+(** ** (family stfp) the Fokker-Planck part for the loop nest FokkerPlanckMap::apply has NOW
+    ([Gen/Gen_FPLoop.v], regenerated on every run; the translator refuses conditionals, [continue], [break], calls -
+    any data-dependent shortcut - inside the nest; [fp_apply_loops] of Model/FPLoop.v runs it on the output array):
+    the nest leaves [fp_apply] in every cell of the grid (proved in Proofs/FPLoopP.v, stated in full in
+    Properties_C04.v), so the 3-point stencil conserves the charge of the array the nest writes. *)
+From Inovesa Require Import Gen.Gen_FPLoop Model.FPLoop Proofs.FPLoopP Proofs.FPLoopGridP.
+
+Theorem C01_fp_loop_nest_is_fp_apply :
+  forall (K : Fld) (nb xs n ip : Z) (H : Z -> Z * K) (D out0 : Z -> K) (i : Z),
+    (0 < n)%Z -> (0 < xs)%Z -> (0 <= nb)%Z -> (0 <= i < nb * xs * n)%Z ->
+    fp_apply_loops nb xs n ip H D out0 i = fp_apply n xs ip H D i.
+Proof. exact fp_apply_loops_is_fp_apply. Qed.
+Print Assumptions C01_fp_loop_nest_is_fp_apply.
+
+Theorem C01_fp3_loop_nest_conserves_grid :
+  forall (K : Fld) (e1 delta : K) (p : Z -> K) (v n le m xs nb : Z) (D out0 : Z -> K),
+    (2 <= n < 2 ^ 32)%Z -> (0 < xs)%Z -> (0 <= nb)%Z -> uniform K delta p -> delta <> f0 ->
+    (forall c, (0 <= c < nb * xs)%Z -> supp (colclip K n (fun s => D (c * n + s)%Z)) 2 (n - 2)) ->
+    sumZ 0 (Z.to_nat (nb * xs * n)) (fp_apply_loops nb xs n 3 (H3 K e1 delta p v n le m) D out0) =
+    sumZ 0 (Z.to_nat (nb * xs * n)) D.
+Proof. exact fp3_loops_conserve_grid. Qed.
+Print Assumptions C01_fp3_loop_nest_conserves_grid.
